@@ -173,7 +173,8 @@ def binary_prop(i: int) -> bool:
 
 
 TYPES = ["identity", "malware", "ipv4-addr", "relationship", "marking-definition", "x-custom", "unregistered-type", "bundle", "sighting",
-         "language-content", "extension-definition", "file"]
+         "language-content", "extension-definition", "file", "archive-ext", "tlp", "statement"]      # the last three are registered names, but not of object types
+NOT_OBJECT_TYPES = ("x-custom", "unregistered-type", "archive-ext", "tlp", "statement")
 NTYPES = len(TYPES)
 REFCFG = [dict(valid_types="identity"), dict(valid_types=["SCO", "SDO", "SRO"]), dict(invalid_types=["bundle", "marking-definition"]),
           dict(valid_types=["SCO"]), dict(valid_types=["SDO", "relationship"]), dict(invalid_types=["SCO"]), dict(valid_types=["identity", "x-custom"])]
@@ -228,7 +229,7 @@ def run_ref_case(t, cfg, allow, v20=False):
     # extension-definition is a meta object in the specification; the library files it under SDO (not judged here, see DESIGN.md)
     cls = {"identity": "SDO", "malware": "SDO", "extension-definition": "SDO", "ipv4-addr": "SCO", "file": "SCO", "relationship": "SRO",
            "sighting": "SRO"}.get(ty)
-    registered = ty not in ("x-custom", "unregistered-type") and not (v20 and ty in ("language-content", "extension-definition"))   # 2.1-only types
+    registered = ty not in NOT_OBJECT_TYPES and not (v20 and ty in ("language-content", "extension-definition"))   # 2.1-only types
     if not registered:
         cls = None
     is_custom = not registered or ty.startswith("x-")
